@@ -39,7 +39,7 @@ pub fn confirm_repeat(
     rerun: impl Fn() -> crate::Outcome,
     n: usize,
 ) -> crate::Outcome {
-    let Some((sig, _)) = o.fail.clone() else {
+    let Some((sig, msg0)) = o.fail.clone() else {
         return o;
     };
     if !is_timing(&sig) {
@@ -50,7 +50,7 @@ pub fn confirm_repeat(
         match &r.fail {
             Some((s2, _)) if *s2 == sig => {}
             _ => {
-                eprintln!("[timing] transient deviation (did not repeat, not a violation): {sig}");
+                eprintln!("[timing] transient deviation (did not repeat, not a violation): {sig} :: {msg0}");
                 o.fail = None;
                 o.transient = true;
                 return o;
